@@ -111,6 +111,16 @@ func scenariosFor(prop string, thorough bool) []*scenario {
 		}
 		add(&scenario{Name: "two-writers-one-fails-vs-reader", Stores: []txn.StoreSpec{store("a", 4, "node", 1, "a", 2, "b")},
 			Progs: []txn.Prog{W("W1", op("rmw", "a", 1, "+1")), W("W2", op("rmw", "a", 1, "+2")), R("R", op("get", "a", 1), op("count", "a", 0))}})
+	case "C15":
+		for _, mt := range []time.Duration{5 * time.Second, time.Minute} {
+			sfx := "-" + mt.String()
+			add(&scenario{Name: "same-key-contention" + sfx, MaxTime: mt, StallThread0: true, Stores: []txn.StoreSpec{store("a", 4, "node", 1, "x", 2, "y")},
+				Progs: []txn.Prog{W("T1", op("rmw", "a", 1, "+1")), W("T2", op("rmw", "a", 1, "+2"))}})
+			add(&scenario{Name: "opposite-order-two-stores" + sfx, MaxTime: mt, StallThread0: true, Stores: []txn.StoreSpec{store("a", 4, "node", 1, "x"), store("b", 4, "node", 1, "y")},
+				Progs: []txn.Prog{W("T1", op("update", "a", 1, "t1"), op("update", "b", 1, "t1")), W("T2", op("update", "b", 1, "t2"), op("update", "a", 1, "t2"))}})
+			add(&scenario{Name: "split-vs-add-same-leaf" + sfx, MaxTime: mt, StallThread0: true, Stores: []txn.StoreSpec{store("a", 2, "node", 1, "x", 2, "y")},
+				Progs: []txn.Prog{W("T1", op("add", "a", 3, "t1")), W("T2", op("add", "a", 4, "t2"))}})
+		}
 	case "C20":
 		for _, place := range []string{"node", "segment"} {
 			st := []txn.StoreSpec{store("a", 2, place, 1, "a", 2, "b", 3, "c")}
